@@ -26,5 +26,7 @@ BindTable(p) ==
 
 Fits(want, got) == want = "any" \/ (want = "yes") = got
 
-IdleRepresentable(name) == name \in {"none", "1ms", "500ms", "2^62-1ms"}
+\* QUIC's max_idle_timeout is a varint of milliseconds: representable iff below 2^62
+\* (ms: base-2^31 digits, least significant first; <<>> = no timeout)
+IdleRepresentable(ms) == \A i \in 3..Len(ms) : ms[i] = 0
 =============================================================================
